@@ -2,7 +2,7 @@
 From Coq Require Import List Bool ZArith Lia Permutation Sorting.Sorted.
 Import ListNotations.
 Require Import Nib.C01.Model Nib.C01.PermSort.
-Open Scope Z_scope.
+Local Open Scope Z_scope.
 
 (* ------------------------------------------------------------------ schedules *)
 
